@@ -106,6 +106,10 @@ BUILT["C54"] = ("E2", "exploration", "deterministic simulation: real peer-store 
 BUILT["C03"] = ("E4", "exploration", "controlled thread scheduling: Miri's seeded scheduler (many-seeds, preemption rate) over the real process-wide AtomicUsize, ids obtained through the public DialOpts path from 2-4 threads",
   "One Miri seed = one exactly repeatable interleaving of the allocating threads; all ids (before, during, after the threads) must be pairwise distinct; a failing seed is the replay",
   "guard OFF (real atomic, no thread-local seam); Miri cannot cross FFI, so whole Swarms on several threads are not run under it - the allocation path is the same ConnectionId::next()", "5/C03")
+E3_NOTE = "real gossipsub::Behaviour and real wire codec (frames cross the simulated network as bytes); the connection handler is a stub: the network moves RpcOut items drained from the behaviour's per-peer queues (cfg(libp2p_verif) facade) and delivers decoded RPCs as handler events; virtual clock drives heartbeats"
+BUILT["C27"] = ("E3", "exploration", "deterministic simulation: 3-7 real gossipsub behaviours on a simulated lossy/partitioning network with per-link FIFO queues, seeded publish/subscribe/link operations; delivery-history oracles",
+  "Per run: random topology, subscriptions, publishes (signed/author/anonymous modes, flood_publish on/off), link stalls, disconnects and heals, duplicated frames; oracles: no application-level duplicate delivery, never forwarded to propagation source or the original publisher, only subscribed topics delivered, and after faults stop every subscriber in the connected subscriber subgraph receives each surviving message within a bounded number of heartbeats",
+  E3_NOTE, "5/C27")
 NOT_YET = {}
 
 def main():
